@@ -319,11 +319,17 @@ pub fn beatmap_projection(id: usize, bytes: &[u8]) -> Result<String, String> {
 }
 
 /// which decoders the model entry `dec` currently covers
-pub const MODEL_DECODERS: &[usize] = &[0, 1, 2, 3, 4, 5, 6];
+pub const MODEL_DECODERS: &[usize] = &[0, 1, 2, 3, 4, 5, 6, 7, 8];
 
 /// text whose byte layer is trivial (valid UTF-8, no BOM, no code unit issues):
 /// the byte->text layer is C10/C08's business
 pub fn model_case(id: usize, text: &str, out: &mut Out, origin: &str) {
+    let nlines = text.lines().count();
+    model_case_with(id, text, out, origin, nlines >= 5 && text.contains('['));
+}
+
+/// the same with the caller's notion of a non-trivial case
+pub fn model_case_with(id: usize, text: &str, out: &mut Out, origin: &str, nontrivial: bool) {
     let mut case = Line::entry("dec");
     case.i(id as i128);
     case.chars(text);
@@ -331,9 +337,32 @@ pub fn model_case(id: usize, text: &str, out: &mut Out, origin: &str) {
         Ok(s) => s,
         Err(e) => format!("<{}>", e),
     };
-    let nlines = text.lines().count();
     out.count(&format!("dec.{}", DECODERS[id]));
-    out.case(case.0, res, format!("{} decoder={} text={:?}", origin, DECODERS[id], text), nlines >= 5 && text.contains('['));
+    out.case(case.0, res, format!("{} decoder={} text={:?}", origin, DECODERS[id], text), nontrivial);
+}
+
+/// raw bytes through the composed byte -> line -> value model (entry `decb`)
+pub fn model_case_bytes(id: usize, bytes: &[u8], out: &mut Out, origin: &str) {
+    let mut case = Line::entry("decb");
+    case.i(id as i128);
+    for b in bytes {
+        case.i(*b as i128);
+    }
+    let res = match decode_dump(id, bytes) {
+        Ok(s) => format!("0 {}", s),
+        Err(e) => match e.as_str() {
+            "io:Other" => "1 1".to_string(),
+            "io:UnexpectedEof" => "1 2".to_string(),
+            "io:PermissionDenied" => "1 3".to_string(),
+            "io:TimedOut" => "1 4".to_string(),
+            "io:WouldBlock" => "1 5".to_string(),
+            "io:WriteZero" => "1 6".to_string(),
+            other => format!("<{}>", other),
+        },
+    };
+    out.count(&format!("decb.{}", DECODERS[id]));
+    let hex: String = bytes.iter().take(600).map(|b| format!("{:02x}", b)).collect();
+    out.case(case.0, res, format!("{} decoder={} bytes(hex)={}", origin, DECODERS[id], hex), bytes.len() >= 40);
 }
 
 pub fn texts(tier: &str, seed: u64, mut f: impl FnMut(&str, &str)) {
